@@ -34,3 +34,25 @@ claim("C10", "generated-input search: name-set generator with prefix families an
       "Names are bound through public constructors (never through the lexer). Declaration sites (context keys, parameters) whose name has a "
       "bound prefix, and texts where the longest bound name ends inside an intended operand, are generated but not asserted (the "
       "statement does not decide them); counted in evidence classes.")
+
+claim("C16", "exhaustive enumeration of the depth-1 type universe (1261 types: all pairs cell by cell against reference relations, all triples by boolean matrix algebra) + generated depth-2 families and coercion cases",
+      "Exploration with exhaustive sub-spaces: every ordered pair of the 1261-type universe is compared with reference relations written from "
+      "the statement and every ordered triple is checked for transitivity (M.M <= M on the SUT's own matrices); depth-2 types, coercion "
+      "(value itself / wrap / unwrap / null, conforms-or-null, idempotence) and parameter coercion through FEEL invocations are sampled.",
+      "Trusts the reference relations in pbt/oracles/types_ref.py and numpy's integer matrix product; depth 2 is sampled, not exhaustive.")
+
+claim("C17", "state-space enumeration over observed workspace snapshots (all histories up to length 6) + generated long histories with shrinking, against a reference workspace model",
+      "Exploration with an exhaustive part: breadth-first over every distinct reachable state (hook snapshot + evaluate answers + trial "
+      "deploy), every operation applied to every state within 6 steps, equal-snapshot histories checked to behave equally, plus random "
+      "histories of up to 60 operations; invariants and the reference model are compared after every step.",
+      "Uses the read-only hook Workspace::verif_snapshot (cfg dmntk_verif). The statement does not say which models a partly matching remove "
+      "designates: either consistent reading is accepted.")
+
+claim("C06", "exhaustive enumeration of ordered operator pairs (triples in the thorough tier) + generated trees/layouts; oracles: parenthesised round trip, reference precedence parser over token lists, layout metamorphic relation",
+      "Exploration with exhaustive sub-spaces: every ordered pair of the 44 operator templates in every operand position and every "
+      "parenthesis subset, number spellings x contexts, string escapes for sampled (quick) / all (thorough) code points, random trees to "
+      "depth 6 and token-preserving layouts; the SUT's tree must equal the reference parser's tree (or both reject), the fully "
+      "parenthesised and the minimal rendering must give back the tree, a dropped needed pair must not.",
+      "Trusts the reference precedence parser in pbt/oracles/feel_syntax.py (transcribed from feel.y's declarations, calibrated against the "
+      "pinned tables). Names are single words bound in the parsing scope; type names followed by words and a few words the lexer treats "
+      "specially are constructed around and counted.")
